@@ -664,10 +664,15 @@ def run_pipe(sc):
                 status, detail = 'hang', {'peer_alive': po['alive'], 'errs': errs}
         except Exception as e:  # noqa: BLE001
             status, detail = 'error', f'no result from the peer: {e!r}'
+    crashed = None
     if status == 'ok' and errs:
-        status, detail = 'error', errs
+        # send() / recv() of the transport itself raised: the transport did not deliver.  The trace ends with a `Crash` event,
+        # which no action of the specification explains: TLC rejects it there.
+        status, detail, crashed = 'crash', errs, errs[0]
     merged = sorted(ev + pev, key=lambda e: (e['ts'], e['o']))
     out = [{k: v for k, v in e.items() if k not in ('ts', 'o')} for e in merged]
+    if crashed is not None:
+        out.append({'ev': 'Crash', 'what': str(crashed)[:300]})
     if status == 'ok':
         out.append({'ev': 'End'})
     shutil.rmtree(tmpd, ignore_errors=True)
